@@ -249,7 +249,7 @@ pub fn run(ctx: &Ctx) {
     });
     ctx.subspace(&format!("all canonical rotation schedules up to depth {} below 20 two-step prefixes", depth), total.load(std::sync::atomic::Ordering::Relaxed), true);
 
-    let n: u32 = ctx.tier.pick(400, 8_000);
+    let n: u32 = ctx.tier.pick(1_200, 12_000);
     ctx.proptest(
         "pt-rotation",
         n,
